@@ -116,7 +116,7 @@ def apply_replacement(functions: dict, variant: str, mode: str):
 
         src = {"module_path": Path(um.__file__), "module_import": "sim.user_module", "module_object": um}[variant]
         base = functions if isinstance(functions, list) else [functions]
-        return [*base, src], "kindergeld_m"
+        return [*base, src], "verif_extra_column"  # the function defined *after* the point where the module may fail
     if variant.startswith("derived:"):
         name, f = resolve_derived(functions, variant[8:])
         if name is None:
